@@ -81,8 +81,8 @@ def ledgerStep (s : St) (h : Int) (op : Op) (g : String → Ledger) : String →
   let r := step s h op
   match op with
   | .unlock k u => upd g k ((g k).onUnlock r.2.isOk u)
-  | .removeUnits k _ => upd g k ((g k).onRemoval r.2.isOk s.L (unitsOf (s.lps k) - unitsOf (r.1.lps k)))
-  | .remove k _ _ => upd g k ((g k).onRemoval r.2.isOk s.L (unitsOf (s.lps k) - unitsOf (r.1.lps k)))
+  | .removeUnits k _ _ => upd g k ((g k).onRemoval r.2.isOk s.L (unitsOf (s.lps k) - unitsOf (r.1.lps k)))
+  | .remove k _ _ _ => upd g k ((g k).onRemoval r.2.isOk s.L (unitsOf (s.lps k) - unitsOf (r.1.lps k)))
   | _ => g
 
 def runL (s : St) (g : String → Ledger) : List (Int × Op) → St × (String → Ledger)
